@@ -173,15 +173,27 @@ impl Probe {
     /// write the crate (only files whose content changed, so cargo's fingerprints stay valid)
     pub fn write(&self) -> std::io::Result<()> {
         let d = self.dir();
+        let o = WriteOpts { format: self.format, ascii_only: false };
+        // cargo does not know that the proc-macro reads the translation files: every source file carries
+        // a digest of them, so a change in the files alone recompiles the probe
+        let digest = {
+            use std::hash::{Hash, Hasher};
+            let mut h = std::collections::hash_map::DefaultHasher::new();
+            self.manifest().hash(&mut h);
+            for ((ns, loc), entries) in &self.project.files {
+                (ns, loc).hash(&mut h);
+                file_text(entries, o).hash(&mut h);
+            }
+            format!("\n// translations digest: {:016x}\n", h.finish())
+        };
         write_if_changed(&d.join("Cargo.toml"), &self.manifest())?;
-        write_if_changed(&d.join("src/main.rs"), &self.main_rs())?;
+        write_if_changed(&d.join("src/main.rs"), &format!("{}{digest}", self.main_rs()))?;
         for (b, src) in &self.extra_bins {
-            write_if_changed(&d.join(format!("src/bin_{b}.rs")), src)?;
+            write_if_changed(&d.join(format!("src/bin_{b}.rs")), &format!("{src}{digest}"))?;
         }
         let ldir = d.join(self.project.locales_dir());
         // remove stale translation files
         let mut wanted: Vec<PathBuf> = vec![];
-        let o = WriteOpts { format: self.format, ascii_only: false };
         for ((ns, loc), entries) in &self.project.files {
             let p = match ns {
                 Some(ns) => ldir.join(loc).join(format!("{ns}.{}", self.format.ext())),
